@@ -7,7 +7,8 @@ V = os.path.dirname(os.path.abspath(__file__))
 MUT = "/tmp/mut"
 ENV = dict(os.environ, GOFLAGS="-mod=mod", GOPROXY="off", GOSUMDB="off", GOTOOLCHAIN="local", VERIF_REPO=MUT, VERIF_WORK=os.path.join(V, ".work-sweep"))
 EXTRA = {
-    "C11-c": ["C05"], "C14-c": ["C18"],  # other checks worth trying when the property's own check misses, or known to catch it too
+    "C11-c": ["C05"], "C14-c": ["C18"], "C03-d": ["C11"], "C06-c": ["C05"], "C09-d": ["C12", "C15"], "C10-d": ["C17"],
+    "C12-c": ["C06"], "C15-c": ["C06"], "C15-d": ["C11"], "C12-d": ["C13"],  # other checks worth trying when the property's own check misses, or known to catch it too
     "C03-b": ["C12"], "C08-a": ["C01", "C13"], "C11-b": ["C06"], "C15-b": ["C12"], "C09-b": ["C07"], "C07-a": ["C09"],
 }
 names = sys.argv[1:] or sorted(os.path.basename(p) for p in glob.glob(V + "/seeded/C*"))
@@ -44,8 +45,17 @@ for n in names:
     json.dump(meta, open(d + "/meta.json", "w"), indent=1)
     rows.append((n, ", ".join(meta["caught_by"]["caught"]) or "MISSED", "; ".join("%s: %s" % (k, v["first_message"]) for k, v in res.items() if v["exit"] == 1)[:220]))
     print(n, meta["caught_by"]["caught"] or "MISSED", flush=True)
+# the table is rebuilt from every meta.json, so partial runs keep the other rows
 with open(V + "/seeded/RESULTS.md", "w") as f:
-    f.write("# Seeded changes vs. checks (quick tier, /repo HEAD %s)\n\n| seeded change | caught by | first message |\n|---|---|---|\n" % head)
-    for r in rows:
-        f.write("| %s | %s | %s |\n" % r)
-# restore evidence files written against the scratch worktree
+    f.write("# Seeded changes vs. checks (quick tier)\n\nEach row: a change made by an independent sub-agent that was given only the text of the property; "
+            "`caught by` lists the checks whose quick tier reports a violation with the change applied to a scratch worktree of /repo.\n\n"
+            "| seeded change | breaks | caught by | first message | /repo HEAD |\n|---|---|---|---|---|\n")
+    for d in sorted(glob.glob(V + "/seeded/C*")):
+        m = json.load(open(d + "/meta.json"))
+        cb = m.get("caught_by") or {}
+        if "error" in cb:
+            f.write("| %s | %s | %s | | |\n" % (os.path.basename(d), m["property"], cb["error"]))
+            continue
+        res = cb.get("results", {})
+        msg = "; ".join("%s: %s" % (k, v["first_message"]) for k, v in res.items() if v["exit"] == 1)[:200].replace("|", "/")
+        f.write("| %s | %s | %s | %s | %s |\n" % (os.path.basename(d), m["property"], ", ".join(cb.get("caught", [])) or "not run / MISSED", msg, cb.get("repo_head", "")))
